@@ -1053,11 +1053,15 @@ package gmars
 //@     invariant [C07] forall j :: 0 <= j && j < len(keyRefs) ==> has(values, keyRefs[j])
 //@     invariant [C07] forall k: Str, j :: has(graph, k) && 0 <= j && j < len(graph[k]) ==> has(values, graph[k][j]) && arr(graph[k]) != arr(keyRefs)
 //@     decreases len(tokens) - rangeindex
+// the visited list is the current depth-first path: it is extended by the node once, on entry, and stays as it is
+// while the node's references are tried one after the other (a sibling already finished is not on the path)
 //@ func nodeContainsCycle
 //@   panics [C05][C07]
 //@   modifies visited[*]
 //@   loop 1
 //@     invariant 0 - 1 <= rangeindex && rangeindex < len(symRefs)
+//@     backedge [C07] local(visited) == iter(local(visited))
+//@     entry [C07] len(local(visited)) == len(visited) + 1 && local(visited)[len(visited)] == node
 //@     decreases len(symRefs) - rangeindex
 //@ func graphContainsCycle
 //@   panics [C05][C07]
